@@ -57,6 +57,8 @@ def gen_group(seed, g):
     kind, weekday = KINDS[g % 8]
     long_only = (g // 8 + g) % 2 == 0
     failing = g % 12 == 5
+    late_static = g % 12 == 11      # a STATIC universe with an asset whose data starts mid-range: the run fails (price not
+    #                                 available) at the first rebalance in every world - identically, message included
     n = rng.choice([2, 3, 3, 4])
     symbols = SYMS[:n]
     start_day = dt.date(2018, 1, 1) + dt.timedelta(days=rng.randrange(0, 1400))
@@ -75,6 +77,10 @@ def gen_group(seed, g):
         if late:
             starts[symbols[-1]] = days[k].isoformat()            # data start here; entry is never earlier
         universe = {"kind": "dynamic", "dates": {symbols[-1]: "%s 00:00" % entry.isoformat()}}
+    if late_static:
+        akind = "fixed"
+        universe = {"kind": "static"}
+        starts = {symbols[-1]: days[rng.randrange(max(6, len(days) // 2), len(days) - 2)].isoformat()}
     if failing:
         long_only, akind = True, "fixed"
         universe, starts = {"kind": "static"}, {}
@@ -118,6 +124,12 @@ def gen_group(seed, g):
 
     cuts = [{"day": pick().isoformat(), "mode": "rewrite", "fseed": rng.randrange(10 ** 6)},
             {"day": pick().isoformat(), "mode": "delete", "fseed": rng.randrange(10 ** 6)}]
+    if late_static:
+        # cut BEFORE the late asset's first bar: deleting the future removes all of its data, rewriting changes it
+        first_late = M.parse_day(starts[symbols[-1]])
+        early = [d for d in days[2:] if d < first_late]
+        if early:
+            cuts = [{"day": early[len(early) // 2].isoformat(), "mode": m, "fseed": rng.randrange(10 ** 6)} for m in ("delete", "rewrite")]
     if adjust:
         cuts.append({"day": pick().isoformat(), "mode": "rewrite", "fseed": rng.randrange(10 ** 6)})
     else:
